@@ -101,7 +101,13 @@ def run_shard(shard: dict, ctx, res, only=None) -> None:
         rdr = PFITSReader(path)
         whole = rdr.read_block(0, N)
         W = np.asarray(whole.data)
-    except Exception as e:  # noqa: BLE001 - outside the statement's antecedent
+    except Exception as e:  # noqa: BLE001
+        if shard["layout"] in ("coherence", "stokes"):
+            # four-polarisation files are what the reader supports (its own sample file is one): (0, N) is an in-range request like any other
+            res.violation({"site": "PFITSReader.read_block", "symptom": f"raised {type(e).__name__} on the in-range request (0, nsamples)", "layout": shard["layout"]},
+                          {"shard": shard, "inner": ["whole", None]}, repr(e))
+            return
+        # layouts the reader cannot read at all are outside the statement's antecedent
         res.outcome(f"out_of_scope/{shard['layout']}")
         res.notes.append(f"layout {shard['layout']} cannot be read in full: {type(e).__name__}")
         return
